@@ -784,6 +784,7 @@ func init() {
 			"harness/props/c20 (YAML tree builder, Exists recorder, error-class mapping, barrier runner of the concurrent cases)",
 			"Go regexp, strings.TrimSpace, net/url.ParseQuery, gopkg.in/yaml.v3, pongo2 lexer/parser (modelled: text, {{ name }}, {% include \"f\" %}, {% extends \"f\" %}, top-level {% block %})",
 			"/repo/apricot/local/verif_hook_c20.go (build tag verif): constructor for a Service over a given cfgbackend.Source",
+			"pongo2's process-wide autoescape switch, read at every Execute (what the linked service writes for a supplied value is tabulated on every run; the switch's only call site is a go/ast fact)",
 		},
 		Assumptions: []string{
 			"lookup cases run a fresh Service per case; seq cases run a whole history on one Service (template cache modelled as path -> backend snapshot at compile time)",
@@ -1117,6 +1118,13 @@ func genTables(repo string) (string, error) {
 		return "", err
 	}
 	b.WriteString(facts)
+
+	// 7. the substitution clause: what the linked service writes for a supplied value, and who touches pongo2's switch
+	sfacts, err := genSubstFacts(repo)
+	if err != nil {
+		return "", err
+	}
+	b.WriteString(sfacts)
 	b.WriteString("end Gen.C20\n")
 	return b.String(), nil
 }
